@@ -62,13 +62,16 @@ def gen_case(rng):
     clock = rng.choice([0, 10**6, 10**9, 2**62 // 1000 * 1000])
     ops = []
     cur = clock
+    ticks = 0          # total of all Tick instructions submitted so far (the model clock never exceeds cur + ticks)
     nsub = 0
     for _ in range(rng.randint(3, 25)):
         k = rng.random()
         if k < 0.35 or nsub == 0:
             pr = rng.random()
             prio = None if pr < 0.4 else str(rng.choice([0, 0, 1, 1, -1, 2, I64MIN, I64MAX]))
-            ops.append({"op": "submit", "body": gen_body(rng, uid, cur), "prio": prio})
+            body = gen_body(rng, uid, cur)
+            ticks += sum(int(i["d"]) for i in body if i["i"] == "tick")
+            ops.append({"op": "submit", "body": body, "prio": prio})
             nsub += 1
         elif k < 0.70:
             d = rng.random()
@@ -81,7 +84,7 @@ def gen_case(rng):
             ops.append({"op": "pass", "deadline": str(min(deadline, U64))})
             cur += 0  # bodies may tick; the model knows
         elif k < 0.82:
-            cur = min(U64 // 1000 * 1000, cur + rng.choice([1, 2, 5, 20, 200]) * 1000)
+            cur = min(U64 // 1000 * 1000, cur + ticks + rng.choice([1, 2, 5, 20, 200]) * 1000)
             ops.append({"op": "clock", "c": str(cur)})
         elif k < 0.91:
             ops.append({"op": "try_resume", "i": rng.randrange(nsub)})
@@ -89,7 +92,7 @@ def gen_case(rng):
             ops.append({"op": "cancel", "i": rng.randrange(nsub)})
     # let everything finish: advance far and run unbounded passes
     for _ in range(2):
-        cur = min(U64 // 1000 * 1000, cur + 10**9)
+        cur = min(U64 // 1000 * 1000, cur + ticks + 10**9)
         ops.append({"op": "clock", "c": str(cur)})
         ops.append({"op": "pass", "deadline": str(U64)})
     return {"clock": str(clock), "nl": 1, "ops": ops, "kind": "sched", "stream": True}
